@@ -115,12 +115,20 @@ Section Print.
 
   Definition parens (l : list item) : list item := [op "("] ++ l ++ [op ")"].
 
-  (* marshalChildNode(thisPrec, child) given the child's rendering *)
-  Definition child (this : prec) (c : expr) (body : list item) : list item :=
-    if Nat.ltb (prec_n (prec_of c)) (prec_n this) then parens body else body.
+  (* marshalChildNode(thisPrec, child) given the child's rendering.  [extra] marks sub-expressions that get parentheses although
+     they need none: cedar-go never adds any ([no_extra]); the parser theorems are proved for EVERY choice, which covers the fully
+     parenthesised rendering, the minimal one and everything in between *)
+  Definition child (extra : expr -> bool) (this : prec) (c : expr) (body : list item) : list item :=
+    if Nat.ltb (prec_n (prec_of c)) (prec_n this) || extra c then parens body else body.
 
   Definition attr_items (k : str) : list item :=
     if can_ident k then [op "."; T TIdent k] else [op "["; str_item k; op "]"].
+
+  Definition no_extra (e : expr) : bool := false.
+
+  Section WithExtra.
+  Variable extra : expr -> bool.
+  Let child := child extra.
 
   Definition infix (lp rp : prec) (o : item) (a b : expr) (ia ib : list item) : list item :=
     child lp a ia ++ [sp; o; sp] ++ child rp b ib.
@@ -174,6 +182,7 @@ Section Print.
                    ++ [sp; kw "else"; sp] ++ child PIf f (expr_items f)
     | EPartialError _ => []
     end.
+  End WithExtra.
 
   (* scopeToNode *)
   Definition scope_expr (x : var) (s : scope) : option expr :=
@@ -186,12 +195,12 @@ Section Print.
     | SIsIn ty u => Some (EIsIn (EVar x) ty (ELit (VEntity (fst u) (snd u))))
     end.
   Definition scope_items (x : var) (s : scope) : list item :=
-    match scope_expr x s with None => [var_item x] | Some e => expr_items e end.
+    match scope_expr x s with None => [var_item x] | Some e => expr_items no_extra e end.
 
   Definition nl : item := Sp [10].
   Definition indent : item := Sp [10; 32; 32; 32; 32].
 
-  Definition policy_items (annots : list (str * str)) (p : policy) : list item :=
+  Definition policy_items (extra : expr -> bool) (annots : list (str * str)) (p : policy) : list item :=
     flat_map (fun kv : str * str => [op "@"; T TIdent (fst kv); op "("; str_item (snd kv); op ")"; nl]) annots
     ++ [idt (if p_effect p then "permit" else "forbid"); sp]
     ++ (match p_principal p, p_action p, p_resource p with
@@ -199,6 +208,6 @@ Section Print.
         | sp_, sa, sr => [op "("; indent] ++ scope_items VPrincipal sp_ ++ [op ","; indent] ++ scope_items VAction sa
                          ++ [op ","; indent] ++ scope_items VResource sr ++ [nl; op ")"]
         end)
-    ++ flat_map (fun c : bool * expr => [nl; idt (if fst c then "when" else "unless"); sp; op "{"; sp] ++ expr_items (snd c) ++ [sp; op "}"]) (p_conds p)
+    ++ flat_map (fun c : bool * expr => [nl; idt (if fst c then "when" else "unless"); sp; op "{"; sp] ++ expr_items extra (snd c) ++ [sp; op "}"]) (p_conds p)
     ++ [op ";"].
 End Print.
